@@ -6,7 +6,7 @@ open Lean
 namespace Ytk.C20
 open Ytk.EffectT Ytk.Effects
 
-def nats (xs : List Nat) : Json := .arr (xs.map (fun n => Json.num n)).toArray
+def nats (xs : List Nat) : Json := .arr (xs.map (fun (n : Nat) => (n : Json))).toArray
 
 /-- the closed write summary of every read API entry, as the theorems see it -/
 def summaryJson : Json :=
